@@ -1,5 +1,6 @@
 import PysphVerif.Driver.Common
 import PysphVerif.Model.Needs
+import PysphVerif.Model.NeedsCodegen
 /-!
 Line protocol for C20.  Values contain no blanks; names are identifiers.
 
@@ -21,6 +22,11 @@ ops:
   `steppers A S`    verdict of the stepper checks
   `saccess S`       `acc <arr.prop;...>` pointers the generated integrator takes
   `build T A Q P S` `ok` | `eq <verdict>` | `step <verdict>`
+  `ktypes A`        `kt <name;...>` keys of `known_types`
+  `sdecl A S`       `decl <m>=<name;...|_|!|?name> ...` per wrapped method what
+                    `get_array_declarations(m)` does: the declared names, `!` = the
+                    RuntimeError of the check, `?n` = KeyError on `n`
+  `sbind S`         `bind <arr.var.prop;...>` pointer variables the generated integrator binds
 -/
 namespace PysphVerif.Driver.C20
 open PysphVerif.Wire PysphVerif.Needs
@@ -113,6 +119,12 @@ def showSVerdict : SVerdict → String
 def showPairs (l : List (Name × Name)) : String :=
   "acc " ++ showNames (l.map (fun p => p.1 ++ "." ++ p.2))
 
+def showDecl (a : List PArr) (s : List Stepper) (m : Name) : String :=
+  m ++ "=" ++ (match stepperDecl a s m with
+    | DeclOutcome.error _ => "!"
+    | DeclOutcome.keyError n => "?" ++ n
+    | DeclOutcome.decl ns => showNames ns)
+
 def handle (line : String) : String :=
   match tokens line with
   | [] => "bad-op"
@@ -144,6 +156,17 @@ def handle (line : String) : String :=
       if nkeys = 2 then showSVerdict (checkSteppers a s) else "bad-op"
     | "saccess", none, none, none, none, some s =>
       if nkeys = 1 then showPairs (stepperAccesses s) else "bad-op"
+    | "ktypes", none, some a, none, none, none =>
+      if nkeys = 1 then "kt " ++ showNames (knownTypes a) else "bad-op"
+    | "sdecl", none, some a, none, none, some s =>
+      if nkeys = 2 then
+        "decl " ++ (if (wrapperNames s).isEmpty then "_"
+                    else " ".intercalate ((wrapperNames s).map (showDecl a s)))
+      else "bad-op"
+    | "sbind", none, none, none, none, some s =>
+      if nkeys = 1 then
+        "bind " ++ showNames ((stepperBindings s).map (fun b => b.1 ++ "." ++ b.2.1 ++ "." ++ b.2.2))
+      else "bad-op"
     | "build", some t, some a, some _, some p, some s =>
       if nkeys = 5 then
         (match buildAll t a p s with
